@@ -17,6 +17,19 @@ _graphgen.parse (tab splitting, E lines classified by geometry):
     depend on it is unchanged, nothing new; factor < 0: a gfapy.Error and text identical;
   * all lines that do not mention the segment are textually unchanged, and nothing new appears that mentions
     neither the segment nor a copy; reference closure at library level.
+  * fresh identifiers: no copy carries an identifier that a line of the document before already used, as its own
+    name or as a reference (`copy-name-not-fresh`).  To make this bite, 20% of the multiply cases are GRAPHS UNDER
+    CONSTRUCTION (`dangling`): after the closed, valid document 1-6 more lines have arrived through add_line which
+    mention segments whose S line has not arrived (legal at every validation level: gfapy keeps a placeholder) -
+    GFA1: L, C, P; GFA2: E, G, F and, rarely, O/U items - and the missing names are exactly where the automatic
+    copy names of the first configuration land (<name>*2, <name>*3, ...; also next to segments already named
+    x*n).  The text compared is str(g) without the lines gfapy writes for its placeholders (tag
+    co:Z:GFAPY_virtual_line); all the checks above apply (GFA1 links/containments to a missing segment are edges
+    like any other and must be copied), and in addition the rest of the graph is untouched: every name that had
+    no S line before still has none, and Gfa.segment(name) is still a placeholder (`missing-segment-materialised`).
+    An identifier that only a GROUP (O/U) lists as an item of a line that has not arrived has its own signature
+    `copy-name-taken-from-group-item` (the unchanged library fails there: Gfa.names does not list those
+    placeholders, the copy joins the group and the awaited line is refused later).
   * apply_copy_numbers(conserve_components=False) with a cn tag on every segment: per segment cn copies in total
     (0: removed, 1: S line unchanged), copies identified by the documented origin tag `or`; every edge of the
     result maps back (copy -> origin) onto an edge of the input (no link invented).
@@ -31,17 +44,27 @@ NOT CHECKED:
   * internal alignments, gaps, fragments, paths and groups that mention the multiplied segment (the property
     speaks of dovetails and containments only); count tags after apply_copy_numbers.
   * identifiers (eid / ID tag) of copied edges.
+  * graphs under construction: GFA2 edges to a segment that has not arrived (they cannot be classified without its
+    length: only as bystander lines when they do not mention the multiplied segment), the placeholder lines
+    themselves, and - when a path or a GFA2 edge of the multiplied segment waits for a missing line - that `equal`
+    with no end of exactly k visible links thins nothing out.
 """
+import re
 from harness import lib
 from harness.props import _graphgen as G
 
 ID = "C15"
 RULE = ("random assembly-like graphs (_graphgen.gen_graph, <= 6 segments quick / <= 12 thorough, names ending in *n "
         "in 20% of them) x up to 4 configurations (segment, factor 0..4 or -1, policy None/off/auto/equal/L/R, "
-        "automatic or given names, by name or by instance), or apply_copy_numbers with cn in 0..3. Non-trivial: a "
+        "automatic or given names, by name or by instance), or apply_copy_numbers with cn in 0..3; 20% of the multiply "
+        "cases are graphs under construction: 1-6 further lines (L/C/P, E/G/F, rarely O/U) mention segments without S "
+        "line named where the automatic copy names would land, and the copies must still get unused identifiers and "
+        "leave the missing segments missing. Non-trivial: a "
         "configuration with factor >= 2 on a segment that has at least one dovetail or containment.")
 CASE_TIMEOUT = 60
 POLICIES = [None, "off", "auto", "equal", "L", "R"]
+# failures about the identifiers of the copies: the same whether or not the segment carries a self-edge
+NAME_SIGS = ("copy-name-not-fresh", "copy-name-taken-from-group-item", "missing-segment-materialised")
 
 
 def budget(tier):
@@ -60,6 +83,8 @@ def gen_case(rng, tier, i):
         c["distribute"] = rng.choice(["auto", "off", "equal"])
         return c
     c["mode"] = "multiply"
+    if rng.random() < 0.2:
+        return _dangling_case(rng, c, d, names)
     cfgs = []
     for _ in range(rng.randint(1, 4)):
         s = rng.choice(names)
@@ -71,6 +96,76 @@ def gen_case(rng, tier, i):
                 given = None
         cfgs.append({"seg": s, "factor": k, "names": given, "distribute": rng.choice(POLICIES),
                      "by_instance": rng.random() < 0.3})
+    c["configs"] = cfgs
+    return c
+
+
+def _auto_candidates(s, used, n):
+    """the first n names <base>*<i> (i = 2, 3, ...) which are not in `used`, <base> being s without a *<digits> suffix:
+    where the documented rule for automatic names (an integer suffix added or incremented until enough unused names
+    are found) lands on the closed document.  Used only to AIM the generator; the oracle does not rely on it."""
+    m = re.search(r"(.*)\*(\d+)", s)
+    base = m.group(1) if m else s
+    out, i = [], 2
+    while len(out) < n:
+        nm = "%s*%d" % (base, i)
+        if nm not in used:
+            out.append(nm)
+        i += 1
+    return out
+
+
+def _dangling_line(rng, version, d, x, dn, j):
+    """one line that mentions the segment dn, which has no S line (x: a segment of the document) -> (kind, line)"""
+    o1, o2 = rng.choice("+-"), rng.choice("+-")
+    if version == "gfa1":
+        kind = rng.choice(["L", "L", "L", "C", "P"])
+        a, b = (x, dn) if rng.random() < 0.5 else (dn, x)
+        if kind == "L":
+            return kind, "L\t%s\t%s\t%s\t%s\t%s" % (a, o1, b, o2, rng.choice(["*", "1M"]))
+        if kind == "C":
+            return kind, "C\t%s\t%s\t%s\t%s\t0\t*" % (a, o1, b, o2)
+        return kind, "P\tpd%d\t%s%s,%s%s\t*" % (j, a, o1, b, o2)
+    kind = rng.choice(["E"] * 5 + ["G"] * 3 + ["F"] * 2 + ["U", "O"])
+    lx = d.segs[x]["len"]
+    if kind == "E":
+        px = rng.choice([("0", "1"), ("%d" % (lx - 1), "%d$" % lx), ("1", "2")])
+        pd = rng.choice([("0", "1"), ("1", "2")])
+        if rng.random() < 0.5:
+            return kind, "E\t*\t%s%s\t%s%s\t%s\t%s\t%s\t%s\t*" % (x, o1, dn, o2, px[0], px[1], pd[0], pd[1])
+        return kind, "E\t*\t%s%s\t%s%s\t%s\t%s\t%s\t%s\t*" % (dn, o1, x, o2, pd[0], pd[1], px[0], px[1])
+    if kind == "G":
+        a, b = (x, dn) if rng.random() < 0.5 else (dn, x)
+        return kind, "G\t*\t%s%s\t%s%s\t%d\t*" % (a, o1, b, o2, rng.randint(1, 50))
+    if kind == "F":
+        return kind, "F\t%s\tread9%s\t0\t1\t0\t1\t*" % (dn, o1)
+    if kind == "U":
+        return kind, "U\tud%d\t%s" % (j, " ".join([x, dn] if rng.random() < 0.5 else [dn]))
+    return kind, "O\tod%d\t%s%s %s%s" % (j, x, o1, dn, o2)
+
+
+def _dangling_case(rng, c, d, names):
+    """a graph under construction: after the (closed, valid) document some more lines have arrived which mention
+    segments whose S line has not arrived (yet) - legal, gfapy keeps placeholders for them - and the missing names
+    are exactly where the automatic copy names of the first configuration would land"""
+    used = set(names) | set(r_["name"] for r_ in d.recs if r_["name"])
+    cfgs = []
+    for j in range(rng.randint(1, 2)):
+        cfgs.append({"seg": rng.choice(names), "factor": rng.choice([2, 2, 2, 3, 3, 4]) if j == 0 else rng.choice([0, 1, 2, 3]),
+                     "names": None, "distribute": rng.choice(POLICIES), "by_instance": rng.random() < 0.3})
+    s, k = cfgs[0]["seg"], cfgs[0]["factor"]
+    cand = _auto_candidates(s, used, k + 1)
+    hot = cand[:k - 1]
+    dang = [x for x in hot if rng.random() < 0.6] or [rng.choice(hot)]
+    dang += [x for x in cand[k - 1:] if rng.random() < 0.3]
+    lines, kinds = [], []
+    for j, dn in enumerate(dang):
+        for _ in range(rng.choice([1, 1, 2])):
+            x = rng.choice(names) if rng.random() < 0.8 else s
+            kind, l = _dangling_line(rng, c["version"], d, x, dn, len(lines))
+            lines.append(l); kinds.append(kind)
+    c["dangling"] = lines
+    c["dangling_kinds"] = kinds
     c["configs"] = cfgs
     return c
 
@@ -93,6 +188,10 @@ def tags(case):
     t = G.features(_doc(case))
     if case["mode"] == "apply_cn":
         return t + ["apply_cn"]
+    for kd in case.get("dangling_kinds") or []:
+        t.append("dangling-" + kd)
+    if case.get("dangling"):
+        t.append("dangling")
     for cf in case["configs"]:
         t.append("factor%d" % cf["factor"])
         t.append("policy-%s" % cf["distribute"])
@@ -112,6 +211,15 @@ def shrink(case, failure):
             if any(signature(c2, f) == sig for f in oracle(c2)):
                 case = c2
                 break
+    j = 0
+    while case.get("dangling") and j < len(case["dangling"]):
+        c2 = dict(case)
+        c2["dangling"] = case["dangling"][:j] + case["dangling"][j + 1:]
+        c2["dangling_kinds"] = case["dangling_kinds"][:j] + case["dangling_kinds"][j + 1:]
+        if c2["dangling"] and any(signature(c2, f) == sig for f in oracle(c2)):
+            case = c2
+        else:
+            j += 1
     return G.shrink_lines(case, failure, oracle, signature)
 
 
@@ -156,6 +264,22 @@ def check_multiply(d0, d1, s, k, requested, policy, F, tag=""):
         return
     if len(copies) != k - 1:
         F.append("copy-count-wrong: factor %d gave %d new segments %r%s" % (k, len(copies), copies, tag))
+        return
+    # fresh: no line of the document before used the identifier, neither as its own name nor as a reference
+    used = set(r_["name"] for r_ in d0.recs if r_["name"])
+    used |= set(x for r_ in d0.recs if r_["rt"] in "LCEGFP" for x in r_["refs"])
+    stale = [c for c in copies if c in used]
+    if stale:
+        F.append("copy-name-not-fresh: factor %d on %s: the cop%s named %r, but the document already used th%s: %r%s" % (
+            k, s, "y is" if len(stale) == 1 else "ies are", stale, "at identifier" if len(stale) == 1 else "ose identifiers",
+            [r_["line"] for r_ in d0.recs if r_["name"] in stale or any(x in stale for x in r_["refs"])], tag))
+        return
+    grp = [c for c in copies if any(c in r_["refs"] for r_ in d0.recs if r_["rt"] in "OU")]
+    if grp:
+        F.append("copy-name-taken-from-group-item: factor %d on %s: the cop%s named %r, an identifier which a group already "
+                 "lists as an item (of a line that has not arrived): %r%s" % (
+                     k, s, "y is" if len(grp) == 1 else "ies are", grp,
+                     [r_["line"] for r_ in d0.recs if r_["rt"] in "OU" and any(x in grp for x in r_["refs"])], tag))
         return
     if requested is not None and sorted(requested) != copies:
         F.append("copy-names-not-as-requested: asked %r got %r%s" % (requested, copies, tag))
@@ -226,7 +350,11 @@ def check_multiply(d0, d1, s, k, requested, policy, F, tag=""):
                     end, s, k, policy, sorted(res[end][1].items()), sorted(res[end][2].items()), tag))
     else:
         cand = [dist_end] if dist_end in ("L", "R") else ["L", "R"]
-        if policy == "equal" and not self_e and all(len(part(plain, e_)) != k for e_ in "LR"):
+        # a path that arrived before one of its links makes gfapy keep a placeholder link on the ends it joins, and
+        # a GFA2 edge to a segment that has not arrived cannot be classified from the text (the length is unknown):
+        # how many links the ends of s carry for `equal` is then not ours to say (never so in a closed document)
+        implied = any(r_["rt"] in "PE" and s in r_["refs"] and any(x not in d0.segs for x in r_["refs"]) for r_ in d0.recs)
+        if policy == "equal" and not self_e and not implied and all(len(part(plain, e_)) != k for e_ in "LR"):
             cand = []
         thinned = [end for end in "LR" if not res[end][0]]
         bad = [end for end in thinned if end not in cand]
@@ -274,7 +402,7 @@ def oracle(case):
         c1 = dict(case); c1["configs"] = [cf]
         f1 = _oracle_multiply(c1)
         if f1 and cf["factor"] >= 2 and _has_self_edge(_doc(case), cf["seg"]):
-            f1 = ["selfedge-" + f for f in f1]
+            f1 = [f if f.startswith(NAME_SIGS) else "selfedge-" + f for f in f1]
         F.extend(f1)
     return F
 
@@ -293,6 +421,16 @@ def _oracle_multiply(case):
         d0 = G.parse(text0, case["version"])
         if not G.closed(d0) or not all(e["valid"] for e in d0.edges) or d0.dup_names:
             return F
+        dang = case.get("dangling") or []
+        if dang:
+            # the graph is under construction: more lines arrive, which mention segments that have no S line yet
+            for l in dang:
+                if lib.outcome(g.add_line, l)[0] != "ok":
+                    return F
+            text0 = G.visible_text(str(g))
+            d0 = G.parse(text0, case["version"])
+            missing = set(x for r_ in d0.recs for x in r_["refs"]) - set(d0.segs) - set(r_["name"] for r_ in d0.recs if r_["name"])
+            tagd = " [after the lines %r had arrived]" % (dang,)
         s, k = cf["seg"], cf["factor"]
         tag = " [multiply(%r, %d, copy_names=%r, distribute=%r)%s]" % (s, k, cf["names"], cf["distribute"],
                                                                        " by instance" if cf["by_instance"] else "")
@@ -300,6 +438,9 @@ def _oracle_multiply(case):
         r = lib.outcome(lambda: g.multiply(arg, k, copy_names=(list(cf["names"]) if cf["names"] else None),
                                            distribute=cf["distribute"], conserve_components=False))
         text1 = str(g)
+        if dang:
+            text1 = G.visible_text(text1)
+            tag = tag + tagd
         if k < 0:
             if r[0] != "gerr":
                 F.append("negative-factor-not-refused: outcome %s %s%s" % (r[0], r[1] if r[0] != "ok" else "", tag))
@@ -335,7 +476,14 @@ def _oracle_multiply(case):
             if len(F) == n0:
                 copies = set(d1.segs) - set(d0.segs)
                 frame(d0, d1, {s}, {s} | copies, F, tag)
-        F.extend(x + tag for x in G.closure_failures(g))
+        if dang and k >= 0:
+            # the rest of the graph is untouched: what had not arrived before has still not arrived
+            for n in sorted(missing - ({s} if k == 0 else set())):
+                r2 = lib.outcome(lambda: g.segment(n))
+                if n in d1.segs or (r2[0] == "ok" and r2[1] is not None and not r2[1].virtual):
+                    F.append("missing-segment-materialised: %s had no S line before, now it is %r%s" % (
+                        n, d1.segs[n]["line"] if n in d1.segs else str(r2[1]), tag))
+        F.extend(x + tag for x in G.closure_failures(g, allow_virtual=bool(dang)))
     return F
 
 
